@@ -559,7 +559,12 @@ func (g *Gen) fnOp() Op {
 		}
 		k -= f.w
 	}
-	return g.fnOpNamed(name)
+	op := g.fnOpNamed(name)
+	if g.p(0.25) {
+		// the caller overwrites and reuses the memory the call returned to it
+		op.P = append(op.P, "scribble-res")
+	}
+	return op
 }
 
 func (g *Gen) fnOpNamed(name string) Op {
@@ -673,9 +678,15 @@ func (g *Gen) fnOpNamed(name string) Op {
 	case "Ellipse64":
 		op.I = []int64{int64(g.f(-S, S)), int64(g.f(-S, S)), int64(g.n(40))}
 		op.F = []float64{g.f(-1, S/2), g.f(-1, S/2)}
+		if g.p(0.08) {
+			op.F[0] = 0 // trivial input: empty result
+		}
 	case "EllipseD":
 		op.I = []int64{int64(g.n(40))}
 		op.F = []float64{g.f(-1, S/2), g.f(-1, S/2), g.f(-S, S), g.f(-S, S)}
+		if g.p(0.08) {
+			op.F[0] = 0
+		}
 	case "Scalars":
 		for i := 0; i < 6; i++ {
 			op.I = append(op.I, int64(g.f(-S, S)))
